@@ -200,6 +200,31 @@ def run(ck: Check):
                         break
         except Exception as e:  # noqa: BLE001
             ck.violation(dict(clause="raises", detector="IncrementalKSTest", error=type(e).__name__, regime="asymptotic"), dict(what="update failed on a valid input", n_ref=nref, window_size=w, error=repr(e)))
+    # (4b) the stream handed over as Python ints / NumPy scalars of other types (values exactly representable in each):
+    #      no valid input makes update fail, and the results are those of the float run
+    for ty_name, ty in (("int", int), ("np.int64", np.int64), ("np.float32", np.float32), ("np.float64", np.float64), ("np.uint8", np.uint8)):
+        for w in (3, 7):
+            ref = np.array([float(rng.randrange(0, 40)) for _ in range(rng.choice([8, 15]))])
+            stream = [rng.randrange(0, 40) for _ in range(w + 6)]
+            base, got = [], []
+            try:
+                d0 = IncrementalKSTest(window_size=w)
+                d0.fit(X=ref)
+                for v in stream:
+                    r, _ = d0.update(value=float(v))
+                    base.append(None if r is None else (float(r.statistic), float(r.p_value)))
+                d1 = IncrementalKSTest(window_size=w)
+                d1.fit(X=ref)
+                for v in stream:
+                    r, _ = d1.update(value=ty(v))
+                    got.append(None if r is None else (float(r.statistic), float(r.p_value)))
+            except Exception as e:  # noqa: BLE001
+                ck.violation(dict(clause="raises", detector="IncrementalKSTest", error=type(e).__name__, input_type=ty_name), dict(what="update failed on a valid numeric value", input_type=ty_name, reference=ref.tolist(), stream=stream, window_size=w, error=repr(e)))
+                continue
+            ck.case(dict(kind="typed-stream", input_type=ty_name, window=w), nontrivial=True, key=repr(("typed", ty_name, w, stream)))
+            ck.count("typed_stream_runs")
+            if got != base:
+                ck.violation(dict(clause="incremental-vs-batch", detector="IncrementalKSTest", input_type=ty_name), dict(what="results differ when the same values arrive as another numeric type", input_type=ty_name, reference=ref.tolist(), stream=stream, window_size=w, got=got, as_float=base))
     # (5) re-fit without reset (fit replaces the reference, keeps the window): every result must be the batch test
     #     on (current reference, last window), across the 10 000 boundary in both directions
     plans = [(6, 9, 4), (9, 6, 3), (5, 10001, 3), (10001, 5, 3)] + ([(40, 10050, 8), (10050, 40, 8)] if thorough else [])
